@@ -308,14 +308,29 @@ func (in *inst) rawBuild(op *Op) outcome {
 			tperm = identity(len(p.Types))
 		}
 		rres := make([]string, len(p.Rules))
-		in.ruleObjs = make([]*enum.Enum, len(p.Rules))
+		// rule objects created before the tasks started are shared between tasks:
+		// their slice is never written again (another task's build reads it)
+		pre := in.ruleObjs
+		if len(pre) != len(p.Rules) {
+			pre = nil
+			in.ruleObjs = make([]*enum.Enum, len(p.Rules))
+		}
 		for _, i := range rperm {
 			r := p.Rules[i]
-			ro := enum.New(r.Name, r.Text)
-			if d := in.donor; d != nil && d.built && i < len(d.ruleObjs) && d.ruleObjs[i] != nil && d.proj.Rules[i] == r {
+			var ro *enum.Enum
+			switch d := in.donor; {
+			case i < len(pre) && pre[i] != nil:
+				ro = pre[i]
+			case d != nil && p.RulesOnly && i < len(d.ruleObjs) && d.ruleObjs[i] != nil && d.proj.Rules[i] == r:
+				ro = d.ruleObjs[i] // the donor's rule objects exist from before the tasks started
+			case d != nil && !p.RulesOnly && d.built && i < len(d.ruleObjs) && d.ruleObjs[i] != nil && d.proj.Rules[i] == r:
 				ro = d.ruleObjs[i]
+			default:
+				ro = enum.New(r.Name, r.Text)
 			}
-			in.ruleObjs[i] = ro
+			if pre == nil {
+				in.ruleObjs[i] = ro
+			}
 			rres[i] = safeStr(func() string { return errText(in.js.AddRule(r.Name, ro)) })
 		}
 		tres := make([]string, len(p.Types))
@@ -323,7 +338,7 @@ func (in *inst) rawBuild(op *Op) outcome {
 		for _, i := range tperm {
 			t := p.Types[i]
 			to := newSchemaFor(t)
-			if d := in.donor; d != nil && d.built && i < len(d.typeObjs) && d.typeObjs[i] != nil && d.proj.Types[i] == t {
+			if d := in.donor; d != nil && !p.RulesOnly && d.built && i < len(d.typeObjs) && d.typeObjs[i] != nil && d.proj.Types[i] == t {
 				to = d.typeObjs[i]
 			}
 			in.typeObjs[i] = to
